@@ -1,0 +1,26 @@
+//go:build verif && !(js && wasm)
+// +build verif
+// +build !js !wasm
+
+package tcell
+
+// VerifLockHook, when set by the verification harness (build tag verif), is
+// called inside every critical section of a terminfo screen: just after the
+// screen's mutex has been taken and just before it is released.
+var VerifLockHook func(op string)
+
+// Lock shadows the promoted sync.Mutex method so that the hook sees it.
+func (t *tScreen) Lock() {
+	t.Mutex.Lock()
+	if h := VerifLockHook; h != nil {
+		h("lock")
+	}
+}
+
+// Unlock shadows the promoted sync.Mutex method so that the hook sees it.
+func (t *tScreen) Unlock() {
+	if h := VerifLockHook; h != nil {
+		h("unlock")
+	}
+	t.Mutex.Unlock()
+}
